@@ -20,6 +20,7 @@ FORM = {'SE': {'skip_junction': 's', 'upstream_junction': 'i', 'downstream_junct
         'A5SS': {'long_junction': 'i', 'short_junction': 's'},
         'A3SS': {'long_junction': 'i', 'short_junction': 's'},
         'MXE': {'first_downstream_junction': 'i', 'second_upstream_junction': 's'}}
+FORM_KEYS = {ev: list(d) for ev, d in FORM.items()}
 SJ = 'seqvar.SplicingJunction:SpliceJunctionTranscriptAlignment.'
 
 
@@ -48,47 +49,83 @@ def run(chk, repo):
         chk.uses(f)
         cfg = CFG(f.node)
         if ev != 'RI':
-            for n in cfg.nodes:
-                if n.kind != 'stmt' or not (isinstance(n.ast, ast.AugAssign) and unparse(n.ast.target) == 'variants'):
-                    continue
-                # which junction produced `aln`
-                jn = None
-                for a in repo.ancestors(n.ast):
-                    if isinstance(a, ast.If) and unparse(a.test) == 'aln':
-                        blk = None
-                        for anc in repo.ancestors(a):
-                            for fld in ('body', 'orelse'):
-                                b = getattr(anc, fld, None)
-                                if isinstance(b, list) and a in b:
-                                    blk = b
-                            if blk:
-                                break
-                        prev = blk[blk.index(a) - 1]
-                        if isinstance(prev, ast.Assign) and unparse(prev.targets[0]) == 'aln' and call_name(prev.value) == 'align_to_transcript':
-                            jn = unparse(prev.value.func.value)
-                        break
-                fx = G.facts_at(cfg, n.id)
-                x = FORM[ev].get(jn)
-                want = [f"min_{x}jc <= self.{x}jc_sample_1", f"min_{x}jc < self.{x}jc_sample_1"] if x else []
-                ok = x is not None and any(fx.get(w) is True for w in want)
-                cross = [k for k in fx if 'jc_sample_1' in k and 'min_' in k and not (f"min_{x}jc" in k and f"{x}jc_sample_1" in k)] if x else []
-                chk.ob('C16.a', f"{ev}: records of {jn} require {x}jc_sample_1 >= min_{x}jc", repo.loc(f, n.ast), ok and not cross,
-                       f"emission for {jn} is guarded by {{k: v for k, v in fx.items() if 'jc' in k}} = { {k: v for k, v in fx.items() if 'jc' in k} }; "
-                       f"expected its own form's threshold ({x}jc)", key=f"{cq}::threshold::{jn}", fn=f.qual)
-            # b
+            from sa import sem
+            nf = sem.nf(repo, f)
+            chains = sem.block_chains(nf)
+            # junction names in the order of create_splice_junctions() (unpacked directly or via an intermediate tuple)
             jn_names = None
-            for st in walk_no_nested(f.node):
-                if isinstance(st, ast.Assign) and call_name(st.value) == 'create_splice_junctions':
-                    t = st.targets[0]
-                    jn_names = [unparse(e) for e in t.elts] if isinstance(t, ast.Tuple) else [unparse(t)]
-            early = [st for st in f.node.body if isinstance(st, ast.If) and 'is_novel' in unparse(st.test) and G.block_leaves(st.body)]
-            ok = len(early) == 1 and jn_names is not None
-            if ok:
-                cj = {unparse(c) for c in G.conjuncts(early[0].test)}
-                ok = cj == {f"not {j}.is_novel(anno)" for j in jn_names}
-            chk.ob('C16.b', f"{ev}: early return requires every junction {jn_names} to be annotated", repo.loc(f, early[0]) if early else f.where, ok,
-                   f"the 'already annotated' early return tests {sorted(unparse(c) for c in G.conjuncts(early[0].test)) if early else None} but the event has junctions {jn_names}: "
-                   "an event with one novel junction is discarded", key=f"{cq}::novelty-conjunction", fn=f.qual)
+            for st in ast.walk(nf):
+                if isinstance(st, ast.Assign) and isinstance(st.targets[0], ast.Tuple) and all(isinstance(e, ast.Name) for e in st.targets[0].elts):
+                    v = sem.expand_names(nf, st, st.value, chains=chains)
+                    if isinstance(v, ast.Call) and call_name(v) == 'create_splice_junctions':
+                        jn_names = [e.id for e in st.targets[0].elts]
+                elif isinstance(st, ast.Assign) and isinstance(st.targets[0], ast.Name) and call_name(st.value) == 'create_splice_junctions' and jn_names is None:
+                    jn_names = [st.targets[0].id]
+            if jn_names is None or len(jn_names) != len(FORM[ev]):
+                raise AnalysisError(f"anchor={cq}: junctions of create_splice_junctions() not found ({jn_names})")
+            form_of = dict(zip(jn_names, FORM[ev].values()))          # positional: the tuple order is the interface of create_splice_junctions
+            # emissions: statements that add aln.convert_to_variant_records(...) to the result
+            emits = sem.facts_where(nf, lambda st: sem.own_stmt(st) and bool(sem.calls_in_stmt(st, 'convert_to_variant_records')))
+            for st, fx in emits:
+                c = sem.calls_in_stmt(st, 'convert_to_variant_records')[0]
+                aln = sem.expand_names(nf, st, c.func.value, chains=chains)
+                jn = unparse(aln.func.value) if isinstance(aln, ast.Call) and call_name(aln) == 'align_to_transcript' else None
+                x = form_of.get(jn)
+                if x is None:
+                    chk.undecided('C16.a', f"{ev}: emission '{unparse(st)[:60]}'", f.where, f"the junction that produced this emission was not recognised ({jn})",
+                                  key=f"{cq}::threshold::{jn}", fn=f.qual)
+                    continue
+                lits = sem.sure_literals(fx)
+                own = any(a in (f"min_{x}jc <= self.{x}jc_sample_1", f"min_{x}jc < self.{x}jc_sample_1") and p for a, p in lits)
+                cross = sorted(a for a, p in lits if 'jc_sample_1' in a and 'min_' in a and not (f"min_{x}jc" in a and f"{x}jc_sample_1" in a))
+                chk.ob('C16.a', f"{ev}: records of {jn} require {x}jc_sample_1 >= min_{x}jc", f.where, own and not cross,
+                       f"emission for {jn} is guarded by { {a: p for a, p in lits if 'jc' in a} }; expected its own form's threshold ({x}jc)",
+                       key=f"{cq}::threshold::{FORM_KEYS[ev][jn_names.index(jn)]}", fn=f.qual)
+            # b: whenever ONE junction is novel the transcript loop is reached (no earlier return); the aggregate form
+            #    `not any(j.is_novel(anno) for j in <all junctions>)` is recognised as such
+            from sa.cfg import Facts as _Facts
+            ncfg = CFG(nf)
+            tl = [l for l in ast.walk(nf) if isinstance(l, ast.For) and unparse(l.iter).endswith('.transcripts')]
+            if len(tl) != 1:
+                raise AnalysisError(f"anchor={cq}: loop over the transcripts of the gene not found")
+            head = ncfg.node_for(tl[0])
+            ret_nodes = [n for n in ncfg.nodes if n.kind == 'stmt' and isinstance(n.ast, ast.Return)]
+
+            def aggregate_over_all(test):
+                for c in ast.walk(test):
+                    if isinstance(c, ast.Call) and call_name(c) == 'any' and c.args and isinstance(c.args[0], (ast.GeneratorExp, ast.ListComp)):
+                        g_ = c.args[0]
+                        v_ = g_.generators[0].target
+                        if isinstance(v_, ast.Name) and unparse(g_.elt) == f"{v_.id}.is_novel(anno)" and not g_.generators[0].ifs:
+                            src = sem.expand_names(nf, tl[0], g_.generators[0].iter, chains=chains)
+                            t_ = unparse(src)
+                            if t_ == 'self.create_splice_junctions()' or [x.strip() for x in t_.strip('()[]').split(',')] == jn_names:
+                                return True
+                            if isinstance(g_.generators[0].iter, ast.Name):
+                                for n_ in ast.walk(nf):
+                                    if isinstance(n_, ast.Assign) and unparse(n_.targets[0]) == g_.generators[0].iter.id and call_name(n_.value) == 'create_splice_junctions':
+                                        return True
+                return False
+            bad_j = []
+            # facts about the junctions only make sense after they are bound: start right after the binding statement
+            asg = [n for n in ncfg.nodes if n.kind == 'stmt' and isinstance(n.ast, ast.Assign) and
+                   {x.id for x in ast.walk(n.ast.targets[0]) if isinstance(x, ast.Name)} >= set(jn_names)]
+            if len(asg) != 1 or len(ncfg.succ[asg[0].id]) < 1:
+                raise AnalysisError(f"anchor={cq}: binding of the junctions not found")
+            start_n = [y for (l_, y) in ncfg.succ[asg[0].id] if l_ == 'next'][0]
+            for J in jn_names:
+                init = _Facts().assume(ast.parse(f"{J}.is_novel(anno)", mode='eval').body, True)
+                stt = ncfg.must_facts(start=start_n, init=init)
+                for rn in ret_nodes:
+                    if stt.get(rn.id) is not None and not ncfg.dominates(head, rn.id):
+                        # an early return that is reachable although J is novel: accepted only for the aggregate test over ALL junctions
+                        tests = [a for a in ast.walk(nf) if isinstance(a, ast.If) and any(x is rn.ast for x in ast.walk(a))]
+                        if not any(aggregate_over_all(t_.test) for t_ in tests):
+                            bad_j.append(J)
+            early_exists = any(not ncfg.dominates(head, rn.id) for rn in ret_nodes)
+            chk.ob('C16.b', f"{ev}: early return requires every junction {jn_names} to be annotated", f.where, not bad_j and early_exists,
+                   f"an early return is reachable although {sorted(set(bad_j))} may be novel: an event with one novel junction is discarded"
+                   if bad_j else "the 'nothing novel' early return was not found", key=f"{cq}::novelty-conjunction", fn=f.qual)
         else:
             for n in cfg.nodes:
                 if n.kind == 'stmt' and norm_stmt(n.ast) == 'variants.append(record)':
